@@ -54,7 +54,7 @@ var domains = []string{
 	"tls.ClientAuthType: equality asserted for the five declared constants ('ClientAuthType declares the policy the server will follow', const block NoClientCert..RequireAndVerifyClientCert); other integers: no panic only.",
 	"x509.KeyUsage: 0 <= k < 2^32 — the format carries 'value' as an unsigned 32-bit number (auxKeyUsage.Value uint32); all 512 combinations of the nine RFC 5280 bits plus higher bits.",
 	"x509.PublicKeyAlgorithm: equality asserted for the declared constants UnknownPublicKeyAlgorithm..X25519 (each has its own entry in keyAlgorithmNames); integers outside the const block are printed as 'unknown_algorithm' by String() and are only checked for totality.",
-	"x509.SignatureAlgorithm: equality asserted for the declared constants UnknownSignatureAlgorithm..Ed25519Sig; other integers have no OID/name and are only checked for totality (decoder documents '*s = UnknownSignatureAlgorithm' as the fallback).",
+	"x509.SignatureAlgorithm: equality asserted for the declared algorithms MD2WithRSA..Ed25519Sig; UnknownSignatureAlgorithm and undeclared integers have no OID, are written with \"oid\":\"\" and are refused by the decoder on purpose (zcrypto's own TestSignatureAlgorithmJSON: 'Should fail on unrecognized algorithm') — checked for totality only, outcomes counted.",
 	"x509.CertificateType: all integers in -50..50, compared modulo the documented identification 'Any unknown integer value is considered the same as CertificateTypeUnknown'.",
 	"crl.RevocationReasonCode: integers -5..20 (the format carries 'value' as int); compared by value.",
 	"json.RSAPublicKey: PublicKey, N, E non-nil, N >= 0, E >= 0 ('modulus' is the unsigned big-endian magnitude, 'length' its byte length*8); N up to 4096 bit incl. 0, E up to 4096 bit.",
@@ -336,7 +336,7 @@ func (k *checker) enums() {
 		}
 		v := x509.SignatureAlgorithm(i)
 		var f x509.SignatureAlgorithm
-		defined := v >= x509.UnknownSignatureAlgorithm && v <= x509.Ed25519Sig
+		defined := v > x509.UnknownSignatureAlgorithm && v <= x509.Ed25519Sig // 0: refused by design, see domains
 		d := fmt.Sprintf("%d(%s)", i, v.String())
 		k.roundTrip(spec{typ: "x509.SignatureAlgorithm", inDomain: defined, enum: defined, desc: d}, &v, &f, func() string { return same(v, f, "value") })
 	}
